@@ -7,7 +7,9 @@
    One map M (a set of keys) protected by a sync.RWMutex.  A reader lists it, a
    writer adds or deletes one key, or tries to add a present one and is refused.  One action per segment between two gate points:
 
-     reader  start        RBegin   call; RLock; [copy the map header; RUnlock]
+     reader  start        REnter   call; whatever the API does before it asks for the read
+                                   lock (PlayersToSlice reads Len() here); parks at list.*.enter
+             list.*.enter RBegin   RLock; [copy the map header; RUnlock]
              list.*.iter  RVisit   produce the next element (parks at list.*.step)
              list.*.step  RVisit   ... or finish: [RUnlock]; return the list
              (returned)   RCount   a second call by the same caller: the count
@@ -69,7 +71,11 @@ Go(t, to) == pc' = [pc EXCEPT ![t] = to] /\ h' = Append(h, t)
 \* every reader that has been called and has not returned yet sees the new value
 Note(m) == hist' = [r \in Readers |-> IF pc[r] = "iter" THEN hist[r] \cup {m} ELSE hist[r]]
 
-RBegin(r) == /\ pc[r] = "start"
+REnter(r) == /\ pc[r] = "start"
+             /\ Go(r, "pre")
+             /\ UNCHANGED <<M, m0, wprog, wl, rl, visited, hist>>
+
+RBegin(r) == /\ pc[r] = "pre"
              /\ ~Locked \/ wl = "none"
              /\ rl' = IF Locked /\ IterUnderLock THEN rl \cup {r} ELSE rl
              /\ hist' = [hist EXCEPT ![r] = {M}]
@@ -117,7 +123,7 @@ WWrite(w) == /\ pc[w] = "locked"
 
 Quiescent == \A t \in Threads : pc[t] = "done"
 
-Next == \/ \E r \in Readers : RBegin(r) \/ RVisit(r) \/ RCount(r)
+Next == \/ \E r \in Readers : REnter(r) \/ RBegin(r) \/ RVisit(r) \/ RCount(r)
         \/ \E w \in Writers : WBegin(w) \/ WPrep(w) \/ WLock(w) \/ WWrite(w)
         \/ (Quiescent /\ UNCHANGED vars)
 
